@@ -479,3 +479,29 @@ func IsErrorReply(p *packets.PublishPacket) (status int, req int, ok bool) {
 	}
 	return e.Status, e.Request, true
 }
+
+// LicKey builds and encrypts a key of the given license without a running broker (child workers use the same
+// deterministic license, so the parent can address them with valid keys).
+func LicKey(lic license.License, target string, perm uint8, expires time.Time, salt uint16) string {
+	k := security.Key(make([]byte, 24))
+	k.SetSalt(salt)
+	k.SetMaster(uint16(lic.Master()))
+	k.SetContract(lic.Contract())
+	k.SetSignature(lic.Signature())
+	k.SetPermissions(perm)
+	k.SetExpires(expires)
+	if target != "" {
+		if err := k.SetTarget(target); err != nil {
+			panic(err)
+		}
+	}
+	c, err := lic.Cipher()
+	if err != nil {
+		panic(err)
+	}
+	s, err := c.EncryptKey(k)
+	if err != nil {
+		panic(err)
+	}
+	return s
+}
